@@ -49,7 +49,7 @@ def check_oob(interp, els, node):
     for e in els:
         if e.d == OOB:
             interp.event('oob-read', node=node)
-            raise AnalysisError('read of memory outside the array buffer (as_strided overrun)', node)
+            raise AbsRaise(ExcVal('OutOfBoundsRead', ('numpy would silently read memory outside the array buffer here (as_strided view larger than the data)',)), node)
 
 
 def filled_for_series(v):
@@ -73,6 +73,8 @@ def filled_for_series(v):
 def broadcast(interp, a, b, node):
     """-> (list of (ela, elb), template Vec)"""
     oa, ob = as_operand(a), as_operand(b)
+    if (oa is None and a is None) or (ob is None and b is None):
+        raise AbsRaise(ExcVal('TypeError', ("unsupported operand type(s): 'NoneType'",)), node)
     if oa is None or ob is None:
         raise AnalysisError(f'unsupported operand types {type(a).__name__}, {type(b).__name__}', node,
                             where=_where(interp, node))
